@@ -17,6 +17,7 @@ mod mon_c04;
 mod mon_c05;
 mod mon_c07;
 mod mon_c08;
+mod mon_c16;
 mod mon_c17;
 
 use report::Report;
@@ -116,6 +117,7 @@ fn main() {
         "C01" => mon_c01::run(&ctx, &mut rep),
         "C02" => mon_c02::run(&ctx, &mut rep),
         "C17" => mon_c17::run(&ctx, &mut rep),
+        "C16" => mon_c16::run(&ctx, &mut rep),
         "C07" => mon_c07::run(&ctx, &mut rep),
         "C03" => mon_c03::run(&ctx, &mut rep),
         "C05" => mon_c05::run(&ctx, &mut rep),
